@@ -854,6 +854,17 @@ pub fn exec<'a>(who: Who, k: u32, op: &'a Op, me: SelfRef<'a>) -> BoxFut<'a, Flo
             }
             Op::Sleep(ms) => tokio::time::sleep(Duration::from_millis(*ms)).await,
             Op::SleepUs(us) => tokio::time::sleep(Duration::from_micros(*us)).await,
+            Op::Tick(period_ms) => {
+                let a = who.actor_ctx().unwrap_or(u32::MAX);
+                let period = period_ms.max(&1) * 1000;
+                let (t0, due) = world::with(|w| {
+                    let now = w.t0.elapsed().as_micros() as u64;
+                    let due = *w.ticks.entry(a).or_insert(now + period);
+                    w.ticks.insert(a, due + period);
+                    (w.t0, due)
+                });
+                tokio::time::sleep_until(t0 + Duration::from_micros(due)).await;
+            }
             Op::Stall => std::future::pending::<()>().await,
             Op::Burn(us) => {
                 world::with(|w| w.probes.burn_used = true);
